@@ -239,4 +239,19 @@ CHECKS = {
         parts=[dict(pkg="./redis-shake/dbSync", harness=["dbsync"], test="^TestVerif_C05$", shards=16, gomaxprocs=2, budget=dict(quick=75, thorough=1200)),
                dict(pkg="./redis-shake", harness=["run"], test="^TestVerif_C05D$", shards=16, gomaxprocs=2, budget=dict(quick=60, thorough=600))],
     ),
+    "C07": dict(
+        level="model_checking",
+        engine="stimx (synctest + seqx), request-level scheduling",
+        technique="exhaustive enumeration (deviation-bounded) of the orders in which a shared model target answers the parallel workers' requests, driving the real full-sync / restore worker pools inside a fake-clock bubble",
+        text="The real syncRDBFile (package dbSync) and restoreRDBFile (package run) run with 1-3 workers; every worker dials (dial hook) its own in-memory connection "
+             "to ONE model Redis which holds every request until the explorer grants it, so the grant sequence decides both how entries are distributed over the "
+             "workers and how their SELECT/RESTORE traffic interleaves. RDB files (written by rdbgen) spread keys over databases in several orders, with Lua scripts; "
+             "configurations cover target.db, db and key filters, filter.lua, key_exists policies with a pre-existing key, and an injected error reply on the j-th "
+             "RESTORE. Oracle at return: every passing key restored exactly once, in its own (or the fixed) database, with its value; filtered keys never; every "
+             "script loaded unless filter.lua; a failed restore or a busy key under key_exists=none must surface as an error or abort, never as a clean return.",
+        note="grant orders are explored with a bound on deviations from first-come-first-served (stated in the evidence); which worker dequeues the next entry is left to the Go runtime within one quiescent step (GOMAXPROCS=1, replay checked); a free-running -race pass covers unsynchronised accesses",
+        rule="execution = (scenario, grant order); states = distinct grant orders per scenario; transitions = grants; non-trivial = scenarios with more than one worker",
+        parts=[dict(pkg="./redis-shake/dbSync", harness=["dbsync"], test="^TestVerif_C07$", shards=16, gomaxprocs=1, budget=dict(quick=75, thorough=1200)),
+               dict(pkg="./redis-shake", harness=["run"], test="^TestVerif_C07R$", shards=16, gomaxprocs=1, budget=dict(quick=75, thorough=1200))],
+    ),
 }
